@@ -5,8 +5,11 @@ The position bookkeeping of the parser model (`Parse.PState`: line and byte colu
 character of the rest of the input, advanced character by character as nom_locate does) is what
 every span of the tree is computed from; the run compares every span of the model's tree, and every
 parse-error location, with the real parser's.  Proved here: advancing is additive and never moves
-backwards, and a span computed by `fromRange` starts exactly at the position of its first
-character — the facts `span_sound` (open) is built on.
+backwards, a span computed by `fromRange` starts exactly at the position of its first character, and
+`adv_position` / `init_position` — the location reached after consuming any text `w` is (line + number
+of line feeds in `w`, byte length of what follows the last line feed of `w`, from 1), whatever `w`
+contains (escapes, comments, non-ASCII text, form feeds) — the facts `span_sound` (open: every node's
+span is the location of the first character of its text) is built on.
 -/
 import Complgen.Model.Parse
 namespace Complgen.Props.C13
@@ -84,5 +87,69 @@ theorem adv_col_same_line (s : PState) (w : List Char) (rest : List Char) (hs : 
       | cons x xs ihx => intro a; simp only [List.foldl_cons, Nat.zero_add]; rw [ihx (a + x.utf8Size), ihx x.utf8Size]; omega
     rw [hf cs c.utf8Size]
     omega
+
+/-- the characters after the last line feed (the whole list when there is none) -/
+def lastLine : List Char → List Char
+  | [] => []
+  | c :: cs => if '\n' ∈ cs then lastLine cs else if c = '\n' then cs else c :: cs
+
+theorem lastLine_of_not_mem : ∀ l : List Char, '\n' ∉ l → lastLine l = l
+  | [], _ => rfl
+  | c :: cs, h => by
+    have hc : c ≠ '\n' := fun e => h (by simp [e])
+    have hcs : '\n' ∉ cs := fun e => h (by simp [e])
+    simp [lastLine, hcs, hc]
+
+theorem bytesLen_cons (c : Char) (cs : List Char) : bytesLen (c :: cs) = c.utf8Size + bytesLen cs := by
+  have hf : ∀ (l : List Char) (a : Nat), List.foldl (fun n c => n + c.utf8Size) a l = a + List.foldl (fun n c => n + c.utf8Size) 0 l := by
+    intro l
+    induction l with
+    | nil => intro a; simp
+    | cons x xs ihx => intro a; simp only [List.foldl_cons, Nat.zero_add]; rw [ihx (a + x.utf8Size), ihx x.utf8Size]; omega
+  simp only [bytesLen, List.foldl_cons, Nat.zero_add]
+  exact hf cs c.utf8Size
+
+/-- **Location arithmetic**: after consuming the text `w`, the line is the old line plus the number of
+line feeds in `w`, and the column is the byte length of what follows the last line feed of `w`,
+counted from 1 — or from the old column when `w` has no line feed.  (Everything that precedes a token
+decides its location, and nothing else does.) -/
+theorem adv_position (w : List Char) : ∀ (s : PState) (rest : List Char), s.rest = w ++ rest →
+    (s.adv w.length).line = s.line + w.count '\n' ∧
+    (s.adv w.length).col = (if '\n' ∈ w then 1 else s.col) + bytesLen (lastLine w) := by
+  induction w with
+  | nil => intro s rest _; simp [PState.adv, bytesLen, lastLine]
+  | cons c cs ih =>
+    intro s rest hs
+    obtain ⟨r, l, col⟩ := s
+    simp only at hs
+    subst hs
+    by_cases hc : c = '\n'
+    · subst hc
+      simp only [List.length_cons, PState.adv, List.cons_append, if_true]
+      have := ih ⟨cs ++ rest, l + 1, 1⟩ rest rfl
+      refine ⟨by rw [this.1]; simp [List.count_cons]; omega, ?_⟩
+      rw [this.2]
+      by_cases hcs : '\n' ∈ cs
+      · simp [hcs, lastLine]
+      · simp [hcs, lastLine, lastLine_of_not_mem cs hcs]
+    · simp only [List.length_cons, PState.adv, List.cons_append, hc, if_false]
+      have := ih ⟨cs ++ rest, l, col + c.utf8Size⟩ rest rfl
+      refine ⟨by rw [this.1]; simp [List.count_cons, hc], ?_⟩
+      rw [this.2]
+      by_cases hcs : '\n' ∈ cs
+      · simp [hcs, lastLine, hc]
+      · have hne : ¬ ('\n' = c) := fun e => hc e.symm
+        simp only [hcs, if_false, lastLine, hc, List.mem_cons, hne, false_or, bytesLen_cons,
+          lastLine_of_not_mem cs hcs]
+        omega
+
+/-- in particular for a whole file read from its beginning (line 1, column 1) -/
+theorem init_position (t w rest : List Char) (ht : t = w ++ rest) :
+    ((PState.init t).adv w.length).line = 1 + w.count '\n' ∧
+    ((PState.init t).adv w.length).col = 1 + bytesLen (lastLine w) := by
+  have := adv_position w (PState.init t) rest (by simp [PState.init, ht])
+  refine ⟨this.1, ?_⟩
+  rw [this.2]
+  by_cases h : '\n' ∈ w <;> simp [h, PState.init]
 
 end Complgen.Props.C13
